@@ -1,11 +1,12 @@
 #!/bin/bash
 # usage: tools/try_seed.sh <patch file> <prop> [<prop> ...]   -- applies the patch to /repo, runs quick checks, reverts
-P="$1"; shift
+P="$(realpath "$1")"; shift
 cd /verif
-if ! git -C /repo apply --check "$P" 2>/dev/null; then echo "PATCH DOES NOT APPLY: $P"; exit 2; fi
-git -C /repo apply "$P"
+if [ -n "$(git -C /repo status --porcelain)" ]; then echo "/repo not clean"; exit 2; fi
+if ! (cd /repo && patch -p1 -F3 -s --no-backup-if-mismatch --dry-run < "$P" >/dev/null 2>&1); then echo "PATCH DOES NOT APPLY: $P"; exit 2; fi
+(cd /repo && patch -p1 -F3 -s --no-backup-if-mismatch < "$P")
 for id in "$@"; do
-  ./check "$id" --tier "${TIER:-quick}" --no-evidence 2>&1 | grep -E "^\[|VIOLATION|HARNESS|INCONCLUSIVE|KNOWN" | cut -c1-300 | head -${LINES_MAX:-8}
+  ./check "$id" --tier "${TIER:-quick}" --no-evidence 2>&1 | grep -E "^\[|VIOLATION|HARNESS|INCONCLUSIVE|KNOWN|^  violation" | cut -c1-${COLS:-260} | head -${LINES_MAX:-8}
   echo "-> exit ${PIPESTATUS[0]} for $id"
 done
 git -C /repo checkout -- .
